@@ -18,7 +18,7 @@ for pid in ALL:
         "evidence_file": "/verif/evidence/%s.json" % pid,
         "replay_cmd_template": "./check %s --replay {path}" % pid,
         "engine": "choice-sequence",
-        "level_claimed": {"category": "exploration", "text": t["level"], "design_ref": "DESIGN.md section 4, %s" % pid},
+        "level_claimed": {"category": PROPS[pid].get("level", "exploration"), "text": t["level"], "design_ref": "DESIGN.md section 4, %s" % pid},
         "level_note": t["note"],
         "technique": t["technique"],
     })
